@@ -89,9 +89,11 @@ package act
 //@   ensures result == qlen(self) && result >= 0
 // emptyFlag(q): the most recent Pop of q found it empty (ghost; any callback invalidates it)
 //@ ghostheap emptyFlag(q lib.QueueMPSC) bool
+// ringOfPIDs(q): q is a pool's worker ring and holds process ids only (data invariant of Pool, assumed)
+//@ spec func ringOfPIDs(q lib.QueueMPSC) bool uninterpreted
 //@ iface lib.QueueMPSC.Pop
 //@   modifies qlen(self), emptyFlag(self)
-//@   ensures result.1 == (old(qlen(self)) > 0) && qlen(self) == old(qlen(self)) - (result.1 ? 1 : 0) && emptyFlag(self) == !result.1
+//@   ensures result.1 == (old(qlen(self)) > 0) && qlen(self) == old(qlen(self)) - (result.1 ? 1 : 0) && emptyFlag(self) == !result.1 && (ringOfPIDs(self) && result.1 ==> typeis(result.0, gen.PID))
 //@ iface lib.QueueMPSC.Push
 //@   modifies qlen(self)
 //@   ensures qlen(self) == old(qlen(self)) + 1
@@ -99,7 +101,9 @@ package act
 //@ func (p *Pool) forward
 //@   props C19
 //@   mode int
-//@   requires [ring] message != nil && p.pool != nil && qlen(p.pool) < 4611686018427387904 && p.forwarded < 9223372036854775807 && p.restarts < 9223372036854775807 && p.unhandled < 9223372036854775807
+//@   modifies emptyFlag, qlen, fwd(message), spawnFail(), p.forwarded, p.restarts, p.unhandled
+//@   requires [ring] p.pool != nil
+//@   assume message != nil && ringOfPIDs(p.pool) && qlen(p.pool) < 4611686018427387904 && p.forwarded < 9223372036854775807 && p.restarts < 9223372036854775807 && p.unhandled < 9223372036854775807
 //@   loop 1 invariant [not_yet_delivered] fwd(message) == old(fwd(message)) && p.unhandled == old(p.unhandled) && 0 <= i && i <= l && l == old(qlen(p.pool))
 //@   loop 1 invariant [ring_kept] qlen(p.pool) == old(qlen(p.pool)) - (spawnFail() - old(spawnFail())) && spawnFail() >= old(spawnFail()) && spawnFail() - old(spawnFail()) <= i
 //@   at call Forward assert [same_message_normal_priority] message == old(message) && priority == gen.MessagePriorityNormal
@@ -145,3 +149,21 @@ package act
 //@   loop 1 invariant [mailbox1] mboxDistinct(a.mailbox)
 //@   loop 2 invariant [mailbox2] mboxDistinct(a.mailbox)
 //@   at call Pop assert [strict_priority] (self == a.mailbox.System ==> emptyFlag(a.mailbox.Urgent)) && (self == a.mailbox.Main ==> emptyFlag(a.mailbox.Urgent) && emptyFlag(a.mailbox.System)) && (self == a.mailbox.Log ==> emptyFlag(a.mailbox.Urgent) && emptyFlag(a.mailbox.System) && emptyFlag(a.mailbox.Main))
+
+//@ iface PoolBehavior.HandleCall
+//@   modifies emptyFlag
+//@ iface PoolBehavior.HandleMessage
+//@   modifies emptyFlag
+//@ iface PoolBehavior.HandleEvent
+//@   modifies emptyFlag
+//@ iface PoolBehavior.HandleInspect
+//@   modifies emptyFlag
+//@ func (p *Pool) ProcessRun
+//@   props C03 C19
+//@   mode int
+//@   no_safety
+//@   requires [mailbox] mboxDistinct(p.mailbox) && p.pool != nil
+//@   loop 1 invariant [mailbox1] mboxDistinct(p.mailbox) && p.pool != nil
+//@   loop 2 invariant [mailbox2] mboxDistinct(p.mailbox) && p.pool != nil
+//@   at call Pop assert [strict_priority] (self == p.mailbox.System ==> emptyFlag(p.mailbox.Urgent)) && (self == p.mailbox.Main ==> emptyFlag(p.mailbox.Urgent) && emptyFlag(p.mailbox.System)) && (self == p.mailbox.Log ==> emptyFlag(p.mailbox.Urgent) && emptyFlag(p.mailbox.System) && emptyFlag(p.mailbox.Main))
+//@   at call forward assert [only_regular_traffic_is_forwarded] message.Type < gen.MailboxMessageTypeExit
